@@ -6,7 +6,7 @@
 //!   wsendpoint random <n> <maxframes> <maxpay> <conc>
 //!
 //! Every connection produces one JSON line
-//!   {"c":i, "mode":.., "echo":.., "ev":[...], "obs":{...}, "mismatch":[...], "nones":k}
+//!   {"c":i, "mode":.., "echo":.., "pre":.., "push":.., "ev":[...], "obs":{...}, "mismatch":[...], "nones":k}
 //! `ev` is the connection's event log (format: spec/wsendpoint/Trace_WsEndpoint.tla), validated by TLC;
 //! `mismatch` (replay only) lists the differences between the observation and what the spec predicted.
 //!
@@ -157,6 +157,8 @@ struct Case {
     exp: Option<Value>,
     gap_us: u64,
     full: bool, // print the event log, the observation and the script
+    pre: String, // handler preamble: "none" | "poll" (one recv_nonblocking while nothing is pending) | "pollpush" (then a push)
+    push: Rle,   // payload of the binary message pushed by the preamble
 }
 
 fn opcode(op: &str) -> u8 {
@@ -231,6 +233,10 @@ struct Ctx {
     done: AtomicBool,
     nones: AtomicUsize,
     log: Mutex<Vec<Value>>,
+    pre: String,
+    push: Rle,
+    polled: AtomicBool,       // the preamble's empty poll has returned: the client may start writing
+    push_started: AtomicBool, // the preamble's push is about to be written: the client starts reading a while later
 }
 
 impl Ctx {
@@ -282,6 +288,34 @@ fn ws_handler(mut ws: WebsocketStream, st: Arc<Shared>) {
     let mut last_none = false;
     let mut streak = 0usize; // consecutive (avail = 0, none) polls
     let mut nap = 200u64;
+    // preamble: a handler that mixes the calls - poll once while nothing can be pending, then (pollpush) send a
+    // message of its own, then go on receiving in its mode
+    if ctx.pre != "none" {
+        let avail = fionread(fd);
+        ctx.log(json!({"e": "call", "avail": avail, "nb": true}));
+        let r = catch_unwind(AssertUnwindSafe(|| ws.recv_nonblocking()));
+        match r {
+            Ok(Restion::None) => {
+                last_none = true;
+                ctx.nones.fetch_add(1, SeqCst);
+                ctx.log(json!({"e": "ret", "kind": "none", "text": false, "pay": []}));
+            }
+            Ok(Restion::Ok(m)) => {
+                delivered += 1;
+                ctx.log(json!({"e": "ret", "kind": "msg", "text": m.is_text(), "pay": rle_json(m.bytes())}));
+            }
+            Ok(Restion::Err(e)) => ctx.log(json!({"e": "ret", "kind": "error", "err": format!("{:?}", e), "text": false, "pay": []})),
+            Err(_) => ctx.log(json!({"e": "ret", "kind": "panic", "text": false, "pay": []})),
+        }
+        if ctx.pre == "pollpush" {
+            let bytes = expand(&ctx.push);
+            let pay = rle_json(&bytes);
+            ctx.push_started.store(true, SeqCst);
+            let ok = catch_unwind(AssertUnwindSafe(|| ws.send(Message::new_binary(bytes)).is_ok())).unwrap_or(false);
+            ctx.log(json!({"e": "push", "pay": pay, "ok": ok}));
+        }
+        ctx.polled.store(true, SeqCst);
+    }
     loop {
         if !ctx.nb {
             if let Some(n) = ctx.stop_after {
@@ -301,9 +335,9 @@ fn ws_handler(mut ws: WebsocketStream, st: Arc<Shared>) {
         let quiet = ctx.nb && avail == 0 && streak >= 2;
         let mut pending_call = None;
         if quiet {
-            pending_call = Some(json!({"e": "call", "avail": avail}));
+            pending_call = Some(json!({"e": "call", "avail": avail, "nb": ctx.nb}));
         } else {
-            ctx.log(json!({"e": "call", "avail": avail}));
+            ctx.log(json!({"e": "call", "avail": avail, "nb": ctx.nb}));
         }
         let r: Result<Restion<Message, WebsocketError>, _> = catch_unwind(AssertUnwindSafe(|| {
             if ctx.nb {
@@ -572,6 +606,10 @@ fn run_case(case: &Case, srv: &Server, rng: &mut Rng) -> Value {
         done: AtomicBool::new(false),
         nones: AtomicUsize::new(0),
         log: Mutex::new(vec![]),
+        pre: case.pre.clone(),
+        push: case.push.clone(),
+        polled: AtomicBool::new(false),
+        push_started: AtomicBool::new(false),
     });
     let mut mismatch: Vec<String> = vec![];
     let mut obs = json!({});
@@ -621,11 +659,30 @@ fn run_case(case: &Case, srv: &Server, rng: &mut Rng) -> Value {
     let end;
     if status == 101 {
         // reading side: parse the server's stream until it ends
+        let c2 = ctx.clone();
+        let big_push = case.pre == "pollpush" && case.push.iter().map(|x| x.1).sum::<u64>() >= (1 << 20);
         let reader = thread::spawn(move || {
+            if big_push {
+                // a client that is slow to read: start reading 150 ms after the handler began to write its large
+                // message, so that the message cannot fit into the socket buffers
+                let t = Instant::now();
+                while !c2.push_started.load(SeqCst) && t.elapsed() < Duration::from_secs(15) {
+                    thread::sleep(Duration::from_micros(200));
+                }
+                thread::sleep(Duration::from_millis(150));
+            }
             let fr = read_frames(&mut rd);
             (fr, rd.end.unwrap_or("eof"))
         });
-        // writing side
+        // writing side; with a handler preamble the client holds its frames back until the handler's empty poll
+        // (and push) is over, and a little longer, so that the next receive call really has to wait for them
+        if case.pre != "none" {
+            let t = Instant::now();
+            while !ctx.polled.load(SeqCst) && t.elapsed() < Duration::from_secs(30) {
+                thread::sleep(Duration::from_micros(200));
+            }
+            thread::sleep(Duration::from_millis(3));
+        }
         let mut off = 0usize; // stream offset written so far
         let mut write_failed = false;
         'frames: for f in &case.frames {
@@ -744,6 +801,7 @@ fn run_case(case: &Case, srv: &Server, rng: &mut Rng) -> Value {
     let partial = ev.iter().any(|e| e["e"] == "call" && (1..6).contains(&e["avail"].as_u64().unwrap_or(0)));
     let full = case.full || !mismatch.is_empty();
     let mut line = json!({"c": case.idx, "mode": if case.nb { "nonblocking" } else { "blocking" }, "echo": case.echo,
+           "pre": case.pre, "push": rle_json(&expand(&case.push)),
            "mismatch": mismatch, "nones": ctx.nones.load(SeqCst), "partial": partial, "events": ev.len(),
            "hs": {"haskey": case.key.is_some(), "key": case.key.clone().unwrap_or_default(), "status": obs["status"],
                   "accept": obs["accept"], "want": obs["want"]}});
@@ -760,7 +818,8 @@ fn case_json(c: &Case) -> Value {
     json!({"c": c.idx, "key": c.key.clone().unwrap_or_else(|| "<nokey>".into()),
            "mode": if c.nb { "nonblocking" } else { "blocking" }, "echo": c.echo,
            "frames": c.frames.iter().map(|f| json!({"op": f.op, "fin": f.fin, "pay": rle_json(&expand(&f.pay)), "cuts": f.cuts})).collect::<Vec<_>>(),
-           "sent": c.sent, "end": match c.end { End::Close => "close", End::Shut => "shut", End::Stay => "stay" }, "gap": c.gap_us})
+           "sent": c.sent, "end": match c.end { End::Close => "close", End::Shut => "shut", End::Stay => "stay" }, "gap": c.gap_us,
+           "pre": c.pre, "push": rle_json(&expand(&c.push))})
 }
 
 /// equality of a predicted and an observed server frame; the payload of a (well-formed) Close reply is
@@ -797,6 +856,8 @@ fn parse_case(idx: usize, v: &Value) -> Case {
         exp: if v["exp"].is_object() { Some(v["exp"].clone()) } else { None },
         gap_us: v["gap"].as_u64().unwrap_or(700),
         full: true,
+        pre: v["pre"].as_str().unwrap_or("none").to_string(),
+        push: rle_from_json(&v["push"]),
     }
 }
 
@@ -971,8 +1032,17 @@ fn rand_case(idx: usize, rng: &mut Rng, maxframes: usize, maxpay: usize) -> Case
         }
         End::Shut
     };
+    // one connection in five has a handler that mixes the calls (empty poll first, sometimes a push, rarely a large one)
+    let (pre, push) = match rng.below(10) {
+        0 => ("poll".to_string(), vec![]),
+        1 => {
+            let n = if rng.chance(1, 12) { rng.range(5 << 20, 7 << 20) } else { rng.range(0, 3000) };
+            ("pollpush".to_string(), rand_payload(rng, n, false))
+        }
+        _ => ("none".to_string(), vec![]),
+    };
     Case { idx, key: rand_key(rng), nb, echo: rng.chance(1, 2), frames, sent, end, exp: None,
-           gap_us: *rng.pick(&[0u64, 0, 200, 700, 1500]), full: true }
+           gap_us: *rng.pick(&[0u64, 0, 200, 700, 1500]), full: true, pre, push }
 }
 
 fn main() {
